@@ -1,5 +1,6 @@
 //! Implementation-side interpreter of verification scripts (see driver/main.ml for the
 //! model side).  One command per stdin line, one result line per command.
+mod ck;
 mod e2;
 mod util;
 mod wal;
@@ -21,6 +22,7 @@ fn main() {
         let toks: Vec<&str> = line.split(' ').collect();
         let res = std::panic::catch_unwind(std::panic::AssertUnwindSafe(|| match toks[0] {
             "wal" => wal_engine.get_or_insert_with(wal::WalEngine::new).cmd(&toks[1..]),
+            "ck" => ck::cmd(&toks[1..]),
             "e2" => {
                 if toks.len() > 1 && toks[1] == "new" {
                     e2_engine = None; // closes the previous store and removes its directory
